@@ -21,3 +21,11 @@ pub assume_specification<T, E, U, F: FnOnce(T) -> Result<U, E>> [Result::<T, E>:
         r is Ok ==> f.ensures((r->Ok_0,), out),
         r is Err ==> out is Err && out->Err_0 == r->Err_0,
 ;
+
+/// core's `impl<T> From<T> for T` is the identity (documented: "From<T> for T is reflexive").
+/// vstd cannot state this (orphan rule on its FromSpecImpl), so it is assumed here per type.
+pub proof fn axiom_reflexive_into<T>()
+    ensures
+        <T as vstd::std_specs::convert::IntoSpec<T>>::obeys_into_spec(),
+        forall|x: T| #[trigger] vstd::std_specs::convert::IntoSpec::<T>::into_spec(x) == x,
+{ admit(); }
